@@ -120,6 +120,24 @@ def run(ctx):
             if "read_file" in hirq.render(t["e"]):
                 ctx.ok(R_read, {"fn": name, "read": hirq.render(t["e"])[:70]})
 
+    # every listed (named) file is read through its name — the by-index reader derives keys from a placeholder name
+    R_byname = ctx.rule("C07.listed-files-read-by-name", "in extract and verify every read of a listed file's content is `read_file(<the listed name>)`; no by-index / anonymous read", floor=3)
+    for name in ("extract_files_with_metadata", "verify_rebuild"):
+        f = mpq.fns.get(F + name)
+        if f is None or not f.hir:
+            continue
+        for c in hirq.walk(f.hir["body"]):
+            if c.get("k") != "mcall" or not re.search(r"Archive::(read_\w+)$", c.get("fn") or ""):
+                continue
+            meth = c["m"]
+            args = " ".join(hirq.render(a) for a in c["args"])
+            aty = (mpq.ty(c["args"][0].get("t")) or mpq.ty(hirq.strip(c["args"][0]).get("t")) or "") if c.get("args") else ""
+            if meth == "read_file" and re.search(r"str|String", aty):
+                ctx.ok(R_byname, {"fn": name, "call": hirq.render(c)[:60]})
+            else:
+                ctx.bad(R_byname, "%s|%s" % (name, meth), "%s:%d" % (f.file, c["ln"]), "content is read with `%s(%s)`" % (meth, args[:50]),
+                        "an encrypted file's key is derived from its name; a read that does not go through the listed name (by table indices, under a placeholder name) decrypts it with the wrong key and the rebuilt archive silently carries garbage")
+
     # summary counts
     ra = mpq.fns.get(F + "rebuild_archive")
     if ra is None or not ra.hir:
